@@ -300,7 +300,12 @@ Ltac wrap_step :=
 Ltac min_step :=
   match goal with
   | |- context[if b2z ?c =? 0 then Some (Z.of_N ?x) else Some (Z.of_N ?y)] =>
-      replace (if b2z c =? 0 then Some (Z.of_N x) else Some (Z.of_N y)) with (Some (Z.of_N (N.min y x)))
+      (* N.min is written with a variable operand last, whichever way round the source compares: facts stated about the minimum then apply to both forms *)
+      let m := match y with
+               | _ => let _ := match goal with _ => is_var y end in constr:(N.min x y)
+               | _ => constr:(N.min y x)
+               end in
+      replace (if b2z c =? 0 then Some (Z.of_N x) else Some (Z.of_N y)) with (Some (Z.of_N m))
         by (symmetry; repeat match goal with |- context[?a <? ?b] => destruct (Z.ltb_spec a b) | |- context[?a <=? ?b] => destruct (Z.leb_spec a b) end; cbn [b2z Z.eqb negb]; f_equal; f_equal; lia)
   end.
 
@@ -316,4 +321,34 @@ Ltac sym_exec :=
   repeat (progress cbn -[conv arith Z.shiftr Z.shiftl Z.land Z.lor Z.lxor Z.lnot Z.quot Z.rem Z.div Z.modulo Z.pow nth_z set_z zs Z.of_N N.shiftl N.shiftr N.land N.lor N.lxor N.ldiff N.div N.modulo N.pow N.sub N.add N.min N.mul bget bset Z.add Z.sub Z.opp Z.mul]
           || conv_step || guard_step || min_step || (progress liftN) || sub_step || wrap_step
           || (rewrite nth_z_zs by rng) || (rewrite set_z_zs by rng)).
+
+(* the state after a run, with the updates carried out *)
+Ltac norm_state := cbv [set_local set_field set_array update locals fields arrays String.eqb Ascii.eqb Bool.eqb].
+
+(* ---------- one-step unfoldings of the interpreter (so that a prefix of a body can be run while a loop stays folded) ---------- *)
+Lemma exec_while_unfold ft cs f st c b :
+  exec ft cs (S f) st (SWhile c b) =
+  match eval ft cs call_depth st c with
+  | Some cz => if cz =? 0 then ONormal st
+               else match exec ft cs f st b with ONormal st' => exec ft cs f st' (SWhile c b) | o => o end
+  | None => OFault
+  end.
+Proof. reflexivity. Qed.
+
+
+Lemma exec_seq ft cs f st a b :
+  exec ft cs (S f) st (SSeq a b) = match exec ft cs f st a with ONormal st' => exec ft cs f st' b | o => o end.
+Proof. reflexivity. Qed.
+Lemma exec_local ft cs f st x e :
+  exec ft cs (S f) st (SLocal x e) = match eval ft cs call_depth st e with Some v => ONormal (set_local st x v) | None => OFault end.
+Proof. reflexivity. Qed.
+Lemma exec_return ft cs f st e :
+  exec ft cs (S f) st (SReturn e) = match eval ft cs call_depth st e with Some v => OReturn st (Some v) | None => OFault end.
+Proof. reflexivity. Qed.
+(* run a prefix of declarations up to an opaque statement *)
+Ltac step_prefix :=
+  repeat (rewrite exec_seq; rewrite exec_local;
+          cbn -[exec conv arith Z.shiftr Z.shiftl Z.land Z.lor Z.lxor Z.lnot Z.quot Z.rem Z.div Z.modulo Z.pow nth_z set_z zs Z.of_N Z.add Z.sub Z.opp Z.mul];
+          repeat conv_step; norm_state).
+
 
